@@ -11,6 +11,7 @@ spec_file(os.path.join(os.path.dirname(os.path.dirname(os.path.abspath(__file__)
 
 abstract("u16", ["str"], "int")
 abstract("leaf_t", ["NodeType"], "bool")
+abstract("atom_t", ["NodeType"], "bool")
 abstract("same_markup_fn", ["Node", "Node"], "bool")
 axiom("u16-nonneg", {"s": "str"}, "u16(s) >= 0 and (u16(s) == 0) == (len(s) == 0) and u16(s) >= len(s)",
       "A7: UTF-16 length of a string (every code point is one or two units)", triggers=["u16(s)"])
@@ -38,6 +39,10 @@ contract(FN, "Node.is_text", {"self": "Node"}, returns="bool", is_property=True,
 contract(FN, "Node.is_leaf", {"self": "Node"}, returns="bool", is_property=True, ensures=["result == leaf_t(self.type)"], props=P2)
 contract("prosemirror/model/schema.py", "NodeType.is_leaf", {"self": "NodeType"}, returns="bool", is_property=True,
          ensures=["result == leaf_t(self)"], trusted="definition of leaf_t: content_match == ContentMatch.empty", props=P2)
+# atoms: nothing under contract may treat `atom` as `has no inside` (an inline atom can have content)
+contract(FN, "Node.is_atom", {"self": "Node"}, returns="bool", is_property=True, ensures=["result == atom_t(self.type)"], props=P2 + ["C09", "C03"])
+contract("prosemirror/model/schema.py", "NodeType.is_atom", {"self": "NodeType"}, returns="bool", is_property=True,
+         ensures=["result == atom_t(self)", "leaf_t(self) ==> result"], trusted="definition of atom_t: is_leaf or spec['atom'] (schema spec dictionaries are outside the subset)", props=P2 + ["C09", "C03"])
 contract(FN, "Node.node_size", {"self": "Node"}, returns="int", is_property=True,
          body_requires=["not self.type.is_text"],  # TextNode overrides it
          ensures=["result == nsize(self)"], props=P2)
